@@ -1,10 +1,10 @@
 package main
 
 import (
-	"reflect"
 	"errors"
 	"fmt"
 	"github.com/advancedclimatesystems/gonnx/onnx"
+	"reflect"
 	"strings"
 
 	"github.com/advancedclimatesystems/gonnx/ops"
@@ -80,7 +80,80 @@ func gateCall(name string, ins []tensor.Tensor) (out string) {
 			}
 		}
 	}
+	// a validated list the caller still HOLDS stays what it was while other nodes are validated (each call
+	// hands out a list of its own: a Run may keep one node's inputs while it prepares the next node)
+	if strings.HasPrefix(fresh, "(GOOkLen") {
+		if held := gateHeld(name, ins); held != "" {
+			return "GOChanged"
+		}
+	}
+	// a refusal for an element type is final: the same call repeated 600 times -- on one instance and on fresh
+	// ones -- is refused every time in the same way (one case in three; nothing counts calls)
+	if strings.HasPrefix(fresh, "(GOErrType") {
+		persistCounter++
+		if persistCounter%3 == 0 {
+			func() {
+				defer func() { recover() }()
+				same, _ := opset13.GetOperator(name)
+				for k := 0; k < 600; k++ {
+					op := same
+					if k%2 == 1 {
+						op, _ = opset13.GetOperator(name)
+					}
+					if got := classifyGate(op, ins); got != fresh {
+						fresh = "GOChanged"
+						return
+					}
+				}
+			}()
+		}
+	}
 	return fresh
+}
+
+var persistCounter = 0
+
+// gateHeld: the list returned for this call is kept, two other nodes whose lists need padding (Gemm without
+// its optional C, Slice without axes and steps) are validated, and the kept list is looked at again
+func gateHeld(name string, ins []tensor.Tensor) (bad string) {
+	defer func() {
+		if r := recover(); r != nil {
+			bad = "panic"
+		}
+	}()
+	op, err := opset13.GetOperator(name)
+	if err != nil {
+		return ""
+	}
+	buf := make([]tensor.Tensor, len(ins))
+	copy(buf, ins)
+	res, err := op.ValidateInputs(buf)
+	if err != nil {
+		return ""
+	}
+	kept := append([]tensor.Tensor{}, res...)
+	f := func() tensor.Tensor { return tensor.New(tensor.WithShape(1, 1), tensor.WithBacking([]float32{5})) }
+	i := func() tensor.Tensor { return tensor.New(tensor.WithShape(1), tensor.WithBacking([]int64{0})) }
+	for _, other := range []struct {
+		op  string
+		ins []tensor.Tensor
+	}{{"Gemm", []tensor.Tensor{f(), f()}}, {"Slice", []tensor.Tensor{f(), i(), i()}}, {"LSTM", []tensor.Tensor{f(), f(), f()}}} {
+		func() {
+			defer func() { recover() }()
+			if o, err := opset13.GetOperator(other.op); err == nil {
+				o.ValidateInputs(other.ins)
+			}
+		}()
+	}
+	if len(res) != len(kept) {
+		return "changed"
+	}
+	for k := range res {
+		if res[k] != kept[k] {
+			return "changed"
+		}
+	}
+	return ""
 }
 
 var gateFixtures = fixtures()
